@@ -48,8 +48,17 @@ Proof.
       match type of H with match ?X with _ => _ end = _ => destruct X end; [eapply IH; eauto|discriminate].
 Qed.
 
-Lemma line_closure_sound jf sf w e top plist force rd name opt just l :
-  line_closure jf sf w e top plist force rd name opt just = Ok (LAdd l) -> Forall (ok_nv e plist) l.
+Lemma setup_closure_lenient_sound sf w e : forall ds skip,
+  Forall (fun x : nvo => recorded e (fst (fst x)) (snd (fst x))) (setup_closure_lenient sf w e skip ds).
+Proof.
+  induction ds as [|d ds IH]; intro skip; cbn [setup_closure_lenient]; [constructor|].
+  cbv zeta. destruct (find_setup_product w e (d_name d)) as [p|] eqn:F.
+  - constructor; [|apply IH]. simpl. apply find_setup_product_recorded in F. destruct F as [F1 F2]. now rewrite F1.
+  - destruct (d_optional d); apply IH.
+Qed.
+
+Lemma line_closure_sound jf sf cf w e top plist force rd name opt just l :
+  line_closure jf sf cf w e top plist force rd name opt just = Ok (LAdd l) -> Forall (ok_nv e plist) l.
 Proof.
   unfold line_closure. destruct (str_eqb name top); [discriminate|].
   set (ver := match alookup name plist with Some v => Some v | None => truthy (setup_version e name) end).
@@ -64,7 +73,9 @@ Proof.
     + intro H; inversion H; subst. constructor; [now apply Hv|].
       destruct (find_pv w name v); [|inversion B; constructor].
       apply setup_closure_sound in B. eapply Forall_impl; [|exact B]. intros a Ha. left. exact Ha.
-    + destruct (negb opt && negb force); discriminate.
+    + destruct (negb opt && negb force); [discriminate|]. destruct cf; [|discriminate].
+      intro H; inversion H; subst. constructor; [now apply Hv|].
+      eapply Forall_impl; [|apply setup_closure_lenient_sound]. intros a Ha. left. exact Ha.
 Qed.
 
 Lemma add_nvol_sound e plist : forall l des opt,
@@ -75,13 +86,13 @@ Proof.
   apply IH; [assumption|]. apply Forall_app. split; [assumption|]. constructor; [|constructor]. assumption.
 Qed.
 
-Lemma collect_sound jf sf w e top plist force rd : forall prods a a',
-  collect jf sf w e top plist force rd prods a = Ok a' ->
+Lemma collect_sound jf sf cf w e top plist force rd : forall prods a a',
+  collect jf sf cf w e top plist force rd prods a = Ok a' ->
   Forall (ok_key e plist) (a_des a) -> Forall (ok_key e plist) (a_des a').
 Proof.
   induction prods as [|r prods IH]; intros a a' H Ha; cbn [collect] in H.
   - inversion H; subst. assumption.
-  - destruct (line_closure jf sf w e top plist force rd (rl_name r) (rl_optional r) (rl_just r)) as [[| |l]|x] eqn:L;
+  - destruct (line_closure jf sf cf w e top plist force rd (rl_name r) (rl_optional r) (rl_just r)) as [[| |l]|x] eqn:L;
       [| | |discriminate].
     + eapply IH; eauto.
     + eapply IH; eauto.
@@ -110,12 +121,12 @@ Proof.
   - intro I. apply in_app_or in I. destruct I as [I|I]; [now apply M in I|auto].
 Qed.
 
-Lemma pins_sound jf sf w e top plist force rd ls out o n v :
-  expand_gen jf sf w e top plist force rd ls = Ok out -> In (OPin o n v) out ->
+Lemma pins_sound jf sf cf w e top plist force rd ls out o n v :
+  expand_gen jf sf cf w e top plist force rd ls = Ok out -> In (OPin o n v) out ->
   recorded e n v \/ alookup n plist = Some v.
 Proof.
   unfold expand_gen.
-  destruct (collect jf sf w e top plist force rd _ _) as [a|x] eqn:C; [|discriminate].
+  destruct (collect jf sf cf w e top plist force rd _ _) as [a|x] eqn:C; [|discriminate].
   intro H; inversion H; subst. intro I. apply in_emit_pin in I. apply in_pin_lines in I.
   apply collect_sound in C; [|constructor]. rewrite Forall_forall in C. apply (C (n, v) I).
 Qed.
@@ -331,14 +342,14 @@ Lemma setups_rewrite w e plist ls :
 Proof. induction ls as [|l ls IH]; [reflexivity|]. destruct l; simpl; now rewrite IH. Qed.
 
 Section Views.
-Variables (jf sf : bool) (w : world) (e : amap str) (top : str) (plist : amap str) (force : bool) (rd : rawdeps).
+Variables (jf sf cf : bool) (w : world) (e : amap str) (top : str) (plist : amap str) (force : bool) (rd : rawdeps).
 Variables (ls : list tline) (out : list oline).
-Hypothesis E : expand_gen jf sf w e top plist force rd ls = Ok out.
+Hypothesis E : expand_gen jf sf cf w e top plist force rd ls = Ok out.
 
 Lemma expand_shape : exists a,
   out = emit (pin_lines a) (blocks false [] (map (rewrite_line w e plist) ls)).
 Proof.
-  unfold expand_gen in E. destruct (collect jf sf w e top plist force rd _ _) as [a|x]; [|discriminate].
+  unfold expand_gen in E. destruct (collect jf sf cf w e top plist force rd _ _) as [a|x]; [|discriminate].
   exists a. now inversion E.
 Qed.
 
@@ -536,12 +547,12 @@ Proof.
   - destruct (mem_key (n0, v0) des); eapply IH; eauto.
 Qed.
 
-Lemma collect_mono jf sf w e top plist force rd : forall prods a a' k,
-  collect jf sf w e top plist force rd prods a = Ok a' -> In k (a_des a) -> In k (a_des a').
+Lemma collect_mono jf sf cf w e top plist force rd : forall prods a a' k,
+  collect jf sf cf w e top plist force rd prods a = Ok a' -> In k (a_des a) -> In k (a_des a').
 Proof.
   induction prods as [|r prods IH]; intros a a' k H I; cbn [collect] in H.
   - now inversion H; subst.
-  - destruct (line_closure jf sf w e top plist force rd (rl_name r) (rl_optional r) (rl_just r)) as [[| |l]|x];
+  - destruct (line_closure jf sf cf w e top plist force rd (rl_name r) (rl_optional r) (rl_just r)) as [[| |l]|x];
       [| | |discriminate].
     + eapply IH; eauto.
     + eapply IH; eauto.
@@ -549,16 +560,16 @@ Proof.
       destruct (add_nvol l (a_des a) (a_opt a)) as [des opt]. eapply IH; eauto.
 Qed.
 
-Lemma collect_complete jf sf w e top plist force rd : forall prods a a' r l n v o,
-  collect jf sf w e top plist force rd prods a = Ok a' -> In r prods ->
-  line_closure jf sf w e top plist force rd (rl_name r) (rl_optional r) (rl_just r) = Ok (LAdd l) ->
+Lemma collect_complete jf sf cf w e top plist force rd : forall prods a a' r l n v o,
+  collect jf sf cf w e top plist force rd prods a = Ok a' -> In r prods ->
+  line_closure jf sf cf w e top plist force rd (rl_name r) (rl_optional r) (rl_just r) = Ok (LAdd l) ->
   In (n, v, o) l -> In (n, v) (a_des a').
 Proof.
   induction prods as [|r0 prods IH]; intros a a' r l n v o H I L Il; [contradiction|].
   cbn [collect] in H. destruct I as [->|I].
   - rewrite L in H. pose proof (add_nvol_in l (a_des a) (a_opt a) n v o Il) as M.
     destruct (add_nvol l (a_des a) (a_opt a)) as [des opt]. eapply collect_mono; eauto.
-  - destruct (line_closure jf sf w e top plist force rd (rl_name r0) (rl_optional r0) (rl_just r0)) as [[| |l0]|x];
+  - destruct (line_closure jf sf cf w e top plist force rd (rl_name r0) (rl_optional r0) (rl_just r0)) as [[| |l0]|x];
       [| | |discriminate].
     + eapply IH; eauto.
     + eapply IH; eauto.
@@ -617,13 +628,13 @@ Lemma block_complete w e top force rd ls out s n v :
   exists o v', In (OPin o n v') out /\ recorded e n v'.
 Proof.
   intros E C I Nt R Vne Hn. unfold expand, expand_gen in E.
-  destruct (collect true true w e top [] force rd _ _) as [a|x] eqn:Col; [|discriminate].
+  destruct (collect true true true w e top [] force rd _ _) as [a|x] eqn:Col; [|discriminate].
   inversion E; subst out. clear E.
   set (r := rewrite w e [] s).
   destruct (rewrite_keeps w e [] s) as [Kn [Ko Kf]]. fold r in Kn, Ko, Kf.
   assert (Ir : In r (setup_rlines (map (rewrite_line w e []) ls))) by now apply in_setup_rlines.
   (* what the loop does for this line *)
-  assert (L : exists l, line_closure true true w e top [] force rd (rl_name r) (rl_optional r) (rl_just r) = Ok (LAdd l) /\
+  assert (L : exists l, line_closure true true true w e top [] force rd (rl_name r) (rl_optional r) (rl_just r) = Ok (LAdd l) /\
                         exists o v', In (n, v', o) l /\ recorded e n v').
   { unfold line_closure. rewrite Kn. destruct (str_eqb (sl_name s) top) eqn:T; [apply str_eqb_eq in T; contradiction|].
     cbn [alookup]. unfold recorded in R. rewrite R. destruct v as [|c0 r0]; [congruence|]. cbn [truthy andb].
@@ -642,7 +653,88 @@ Proof.
       + eexists. split; [reflexivity|]. destruct Hn as [->|[_ [Hd _]]]; [|congruence].
         exists (rl_optional r), (c0 :: r0). split; [now left|exact R]. }
   destruct L as [l [Ll [o [v' [Il Rv]]]]].
-  pose proof (collect_complete true true w e top [] force rd _ _ a r l n v' o Col Ir Ll Il) as D.
+  pose proof (collect_complete true true true w e top [] force rd _ _ a r l n v' o Col Ir Ll Il) as D.
+  exists (mem_key (n, v') (a_opt a) || mem_str n (a_nf a)), v'. split; [|exact Rv].
+  apply emit_has_pins.
+  - eapply blocks_has_setup. apply in_map_rewrite_bsetup. exact I.
+  - unfold pin_lines. apply in_map_iff. exists (n, v'). split; [reflexivity|exact D].
+Qed.
+
+(* ------------------------------------------------------------ ... whenever the table could be expanded at all *)
+
+Lemma setup_closure_lenient_complete sf w e : forall ds skip d p,
+  In d ds -> find_setup_product w e (d_name d) = Some p ->
+  In (p_name p, p_version p, d_optional d) (setup_closure_lenient sf w e skip ds).
+Proof.
+  induction ds as [|d0 ds IH]; intros skip d p I F; [contradiction|].
+  cbn [setup_closure_lenient]. cbv zeta. destruct I as [->|I].
+  - rewrite F. now left.
+  - destruct (find_setup_product w e (d_name d0)) as [p0|].
+    + right. now apply IH.
+    + destruct (d_optional d0); now apply IH.
+Qed.
+
+Lemma collect_ok_line jf sf cf w e top plist force rd : forall prods a a' r,
+  collect jf sf cf w e top plist force rd prods a = Ok a' -> In r prods ->
+  exists x, line_closure jf sf cf w e top plist force rd (rl_name r) (rl_optional r) (rl_just r) = Ok x.
+Proof.
+  induction prods as [|r0 prods IH]; intros a a' r H I; [contradiction|].
+  cbn [collect] in H. destruct I as [->|I].
+  - destruct (line_closure jf sf cf w e top plist force rd (rl_name r) (rl_optional r) (rl_just r)) as [x|x];
+      [now exists x|discriminate].
+  - destruct (line_closure jf sf cf w e top plist force rd (rl_name r0) (rl_optional r0) (rl_just r0)) as [[| |l0]|x];
+      [| | |discriminate].
+    + eapply IH; eauto.
+    + eapply IH; eauto.
+    + destruct (add_nvol l0 (a_des a) (a_opt a)) as [des opt]. eapply IH; eauto.
+Qed.
+
+(* block_complete without the hypothesis [closed]: that the expansion succeeded is enough.  Where the closure
+   below a line could not be collected, either the expansion failed (required line, no --force) or - cfix - the
+   line's product and everything set up in its dependency list were kept *)
+Lemma block_complete_open w e top force rd ls out s n v :
+  expand w e top [] force rd ls = Ok out ->
+  In (LSetup s) ls -> sl_name s <> top -> recorded e (sl_name s) v -> v <> [] ->
+  (n = sl_name s \/
+   (mem_str (lit "-j") (sl_flags s) = false /\ find_pv w (sl_name s) v <> None /\
+    exists d p, In d (lookup_raw rd (sl_name s) v) /\ d_name d = n /\ find_setup_product w e n = Some p)) ->
+  exists o v', In (OPin o n v') out /\ recorded e n v'.
+Proof.
+  intros E I Nt R Vne Hn. unfold expand, expand_gen in E.
+  destruct (collect true true true w e top [] force rd _ _) as [a|x] eqn:Col; [|discriminate].
+  inversion E; subst out. clear E.
+  set (r := rewrite w e [] s).
+  destruct (rewrite_keeps w e [] s) as [Kn [Ko Kf]]. fold r in Kn, Ko, Kf.
+  assert (Ir : In r (setup_rlines (map (rewrite_line w e []) ls))) by now apply in_setup_rlines.
+  destruct (collect_ok_line true true true w e top [] force rd _ _ a r Col Ir) as [res Hok].
+  assert (L : exists l, line_closure true true true w e top [] force rd (rl_name r) (rl_optional r) (rl_just r) = Ok (LAdd l) /\
+                        exists o v', In (n, v', o) l /\ recorded e n v').
+  { revert Hok. unfold line_closure. rewrite Kn.
+    destruct (str_eqb (sl_name s) top) eqn:T; [apply str_eqb_eq in T; contradiction|].
+    cbn [alookup]. unfold recorded in R. rewrite R. destruct v as [|c0 r0]; [congruence|]. cbn [truthy andb].
+    unfold rl_just. rewrite Kf.
+    destruct (mem_str (lit "-j") (sl_flags s)) eqn:J.
+    - intros _. eexists. split; [reflexivity|]. destruct Hn as [->|[Hj _]]; [|discriminate].
+      exists (rl_optional r), (c0 :: r0). split; [now left|exact R].
+    - destruct (find_pv w (sl_name s) (c0 :: r0)) as [q|] eqn:Fq.
+      + destruct (setup_closure true w e None (lookup_raw rd (sl_name s) (c0 :: r0))) as [l|x] eqn:Hl.
+        * intros _. eexists. split; [reflexivity|]. destruct Hn as [->|[_ [_ [d [p [Id [Dn Fp]]]]]]].
+          -- exists (rl_optional r), (c0 :: r0). split; [now left|exact R].
+          -- subst n. exists (d_optional d), (p_version p). split.
+             ++ right. pose proof (setup_closure_complete true w e _ None l d p Hl Id Fp) as M.
+                apply find_setup_product_recorded in Fp. destruct Fp as [Pn _]. now rewrite Pn in M.
+             ++ apply find_setup_product_recorded in Fp. apply Fp.
+        * destruct (negb (rl_optional r) && negb force); [discriminate|]. intros _.
+          eexists. split; [reflexivity|]. destruct Hn as [->|[_ [_ [d [p [Id [Dn Fp]]]]]]].
+          -- exists (rl_optional r), (c0 :: r0). split; [now left|exact R].
+          -- subst n. exists (d_optional d), (p_version p). split.
+             ++ right. pose proof (setup_closure_lenient_complete true w e _ None d p Id Fp) as M.
+                apply find_setup_product_recorded in Fp. destruct Fp as [Pn _]. now rewrite Pn in M.
+             ++ apply find_setup_product_recorded in Fp. apply Fp.
+      + intros _. eexists. split; [reflexivity|]. destruct Hn as [->|[_ [Hd _]]]; [|congruence].
+        exists (rl_optional r), (c0 :: r0). split; [now left|exact R]. }
+  destruct L as [l [Ll [o [v' [Il Rv]]]]].
+  pose proof (collect_complete true true true w e top [] force rd _ _ a r l n v' o Col Ir Ll Il) as D.
   exists (mem_key (n, v') (a_opt a) || mem_str n (a_nf a)), v'. split; [|exact Rv].
   apply emit_has_pins.
   - eapply blocks_has_setup. apply in_map_rewrite_bsetup. exact I.
